@@ -238,14 +238,35 @@ def check_theorems(pid):
     return res
 
 
-COQCHK_SKIP = {"C05", "C06"}   # import Flocq + the grid evaluations: coqchk re-checks vm casts with the slow machine (hours); run out of band
+# C05 / C06 also contain the grid evaluations (Proofs/AnalogGrid*.v, AnalogProofs.v): coqchk re-checks their vm casts with its own
+# slow reduction (hours), so for these two the independent checker runs on the modules holding the general (non-grid) proofs;
+# the grid lemmas are checked by coqc's kernel (full .vo build) only.
+COQCHK_MODULES = {
+    "C05": ["HIDI.Proofs.DeviceWf", "HIDI.Proofs.ParserDevice", "HIDI.Proofs.AnalogEndstop", "HIDI.Proofs.AnalogGeneral2"],
+    "C06": ["HIDI.Proofs.AnalogEndstop", "HIDI.Proofs.AnalogGeneral", "HIDI.Proofs.AnalogGeneral2"],
+}
 
 
 def coqchk(pid, timeout=3000):
     """Independent re-check of the compiled property module and everything it depends on (thorough tier).
     Returns the list of axioms coqchk reports for the whole context ([] = none)."""
-    r = subprocess.run(["flock", "-s", os.path.join(WORKROOT, "make.lock"), "coqchk", "-silent", "-o", "-Q", "theories", "HIDI",
-                        "HIDI.Properties.%s" % pid], cwd=COQ, capture_output=True, text=True, timeout=timeout)
+    mods = list(COQCHK_MODULES.get(pid, ["HIDI.Properties.%s" % pid]))
+    # coqchk runs for a long time: it works on a snapshot of the compiled files (taken under the build lock) so that it neither
+    # blocks nor is disturbed by a concurrent build
+    snap = os.path.join(workdir(), "vo-snapshot")
+    shutil.rmtree(snap, ignore_errors=True)
+    r = subprocess.run(["flock", "-s", os.path.join(WORKROOT, "make.lock"), "rsync", "-a", "--include=*/", "--include=*.vo",
+                        "--exclude=*", os.path.join(COQ, "theories") + "/", os.path.join(snap, "theories") + "/"],
+                       capture_output=True, text=True, timeout=600)
+    if r.returncode != 0:
+        raise CheckError("cannot snapshot the compiled files for coqchk: " + r.stderr[-500:])
+    try:
+        r = subprocess.run(["coqchk", "-silent", "-o", "-Q", "theories", "HIDI"] + mods, cwd=snap, capture_output=True, text=True,
+                           timeout=timeout)
+    except subprocess.TimeoutExpired:
+        raise CheckError("coqchk did not finish within %d s on %s" % (timeout, mods))
+    finally:
+        shutil.rmtree(snap, ignore_errors=True)
     out = r.stdout + r.stderr
     if r.returncode != 0:
         raise CheckError("coqchk rejects Properties/%s.vo:\n%s" % (pid, out[-2000:]))
@@ -258,8 +279,8 @@ def coqchk(pid, timeout=3000):
         if mm and mm.group(1) != "<none>":
             raise CheckError("coqchk: development relies on %s" % bad)
     if body == "<none>":
-        return []
-    return [l.strip() for l in body.split("\n") if l.strip()]
+        return [], mods
+    return [l.strip() for l in body.split("\n") if l.strip()], mods
 
 
 # ---- parsing Coq terms printed by vm_compute (lists, tuples, numbers, constructors)
@@ -387,12 +408,14 @@ class Run:
             raise CheckError("forbidden constructs in the Coq development: %s" % bad[:5])
         ensure_coq_built()
         self.thm_axioms = check_theorems(self.pid)
-        if self.tier == "thorough" and self.pid not in COQCHK_SKIP:
-            ax = coqchk(self.pid)
+        if self.tier == "thorough":
+            ax, mods = coqchk(self.pid)
             allowed = {a for v in self.thm_axioms.values() for a in v}
-            extra = [a for a in ax if a.split()[0] not in allowed]
-            self.coverage["coqchk"] = {"cmd": "coqchk -silent -o -Q theories HIDI HIDI.Properties.%s" % self.pid,
-                                       "axioms_in_context": ax or "none"}
+            extra = [a for a in ax if a.split()[0].replace("Coq.Logic.", "").replace("Coq.Reals.", "") not in allowed]
+            self.coverage["coqchk"] = {"cmd": "coqchk -silent -o -Q theories HIDI " + " ".join(mods),
+                                       "axioms_in_context": ax or "none",
+                                       "note": ("grid modules (kernel evaluation, AnalogGrid*/AnalogProofs) are not re-checked by coqchk"
+                                                if self.pid in COQCHK_MODULES else "whole property module and its dependencies")}
             if extra:
                 raise CheckError("coqchk reports axioms that Print Assumptions did not: %s" % extra)
         return self.thm_axioms
